@@ -54,6 +54,9 @@ type Conn struct {
 	cache      connector.IMAPState
 	// Dedup: CreateMessage answers with an existing remote message that has the same bytes and is in some mailbox
 	Dedup bool
+	// LabelMove: MoveMessages has label semantics: the message is added to the destination, stays in the source, and the
+	// connector answers false ("do not remove the old messages")
+	LabelMove bool
 }
 
 func New(users []string, pass string) *Conn {
@@ -329,12 +332,14 @@ func (c *Conn) MoveMessages(ctx context.Context, cache connector.IMAPStateWrite,
 	}
 	for _, id := range messageIDs {
 		if m, ok := c.Messages[id]; ok {
-			delete(m.Mboxes, mboxFromID)
+			if !c.LabelMove {
+				delete(m.Mboxes, mboxFromID)
+			}
 			m.Mboxes[mboxToID] = true
 		}
 	}
 	c.log("MoveMessages", nil, ids(messageIDs), string(mboxFromID), string(mboxToID))
-	return true, nil
+	return !c.LabelMove, nil
 }
 
 func (c *Conn) mark(op string, messageIDs []imap.MessageID, v bool) error {
@@ -524,4 +529,48 @@ func (c *Conn) MessageIDsIn(mbox imap.MailboxID) []imap.MessageID {
 	}
 	sort.Slice(out, func(i, j int) bool { return out[i] < out[j] })
 	return out
+}
+
+// MessagesWhere returns the sorted ids of the remote messages that are in mailbox mbox and whose literal satisfies pred
+// (added for the connector MessageUpdated histories of C04).
+func (c *Conn) MessagesWhere(mbox imap.MailboxID, pred func(literal []byte) bool) []imap.MessageID {
+	c.mu.Lock()
+	defer c.mu.Unlock()
+	var out []imap.MessageID
+	for id, m := range c.Messages {
+		if m.Mboxes[mbox] && pred(m.Literal) {
+			out = append(out, id)
+		}
+	}
+	sort.Slice(out, func(i, j int) bool { return out[i] < out[j] })
+	return out
+}
+
+// MessageInfo returns a copy of the literal, the flags and the date of a remote message.
+func (c *Conn) MessageInfo(id imap.MessageID) ([]byte, imap.FlagSet, time.Time, bool) {
+	c.mu.Lock()
+	defer c.mu.Unlock()
+	m, ok := c.Messages[id]
+	if !ok {
+		return nil, imap.NewFlagSet(), time.Time{}, false
+	}
+	return append([]byte{}, m.Literal...), m.Flags, m.Date, true
+}
+
+// SetMessage changes the record of a remote message without telling gluon: new literal (nil = keep), flags, mailboxes.
+func (c *Conn) SetMessage(id imap.MessageID, literal []byte, flags imap.FlagSet, mboxes []imap.MailboxID) {
+	c.mu.Lock()
+	defer c.mu.Unlock()
+	m, ok := c.Messages[id]
+	if !ok {
+		return
+	}
+	if literal != nil {
+		m.Literal = append([]byte{}, literal...)
+	}
+	m.Flags = flags
+	m.Mboxes = map[imap.MailboxID]bool{}
+	for _, b := range mboxes {
+		m.Mboxes[b] = true
+	}
 }
